@@ -43,6 +43,8 @@ pub struct GenCfg {
     /// also use format escapes that the pinned code generator passes through verbatim and that
     /// make the emitted program unreadable (`\\c`); such workloads are set aside when unreadable
     pub risky_specials: bool,
+    /// vary the layout (blank runs, newlines, redundant parentheses up to depth 100)
+    pub layout_variants: bool,
     /// out of 4: how many tests are drawn from the "passes for most files" vocabulary (C16 wants
     /// records to be emitted; 0 = fully discriminating tests)
     pub likely_true: u64,
@@ -188,6 +190,15 @@ fn perm_arg(rng: &mut Rng) -> String {
     }
 }
 
+/// Mostly a small number below `small`; now and then a boundary value of the 32-bit argument.
+fn big_or(rng: &mut Rng, small: u64) -> u64 {
+    if rng.chance(1, 12) {
+        *rng.pick(&[4294967295u64, 4294967294, 2147483648, 4000000000, 1000000000])
+    } else {
+        rng.below(small)
+    }
+}
+
 fn filler_test(rng: &mut Rng) -> String {
     match rng.below(19) {
         0 => "-empty".into(),
@@ -196,16 +207,20 @@ fn filler_test(rng: &mut Rng) -> String {
         3 => "-writable".into(),
         4 => "-true".into(),
         5 => "-false".into(),
-        6 => format!("-uid {}{}", cmp_prefix(rng), rng.below(70_000)),
-        7 => format!("-gid {}{}", cmp_prefix(rng), rng.below(70_000)),
-        8 => format!("-inum {}{}", cmp_prefix(rng), rng.below(900_000)),
-        9 => format!("-links {}{}", cmp_prefix(rng), rng.below(12)),
+        6 => format!("-uid {}{}", cmp_prefix(rng), big_or(rng, 70_000)),
+        7 => format!("-gid {}{}", cmp_prefix(rng), big_or(rng, 70_000)),
+        8 => format!("-inum {}{}", cmp_prefix(rng), big_or(rng, 900_000)),
+        9 => format!("-links {}{}", cmp_prefix(rng), if rng.chance(1, 12) { *rng.pick(&[4294967296u64, 18446744073709551615, 9999999999]) } else { rng.below(12) }),
         10 => format!("-mirror-count {}{}", cmp_prefix(rng), rng.below(5)),
         11 => format!("-stripe-count {}{}", cmp_prefix(rng), rng.below(9)),
         12 => {
-            // units up to M only: G and T multiples exceed 10^9
-            let unit = *rng.pick(&["", "b", "c", "w", "k", "M"]);
-            let n = if unit == "M" { rng.below(900) } else { rng.below(100_000) };
+            let unit = *rng.pick(&["", "b", "c", "w", "k", "M", "M", "G", "T"]);
+            let n = match unit {
+                "M" => rng.below(5000),
+                "G" => rng.below(3000),
+                "T" => rng.below(4000),
+                _ => rng.below(100_000),
+            };
             format!("-size {}{n}{unit}", cmp_prefix(rng))
         }
         13 => {
@@ -440,10 +455,49 @@ pub fn expression(rng: &mut Rng, cfg: &GenCfg) -> String {
     }
     let top = leaves.pop().unwrap();
     render(&top, rng, &mut out, true);
+    if cfg.layout_variants {
+        // layout the lexer must not care about: runs of blanks and newlines between words
+        // (quoted strings are left alone), redundant parentheses around everything
+        if rng.chance(1, 3) {
+            let depth = *rng.pick(&[1usize, 2, 5, 30, 100]);
+            out = format!("{}{}{}", "( ".repeat(depth), out, " )".repeat(depth));
+        }
+        if rng.chance(1, 2) {
+            let mut laid = String::with_capacity(out.len() + 16);
+            let mut quote: Option<char> = None;
+            for ch in out.chars() {
+                match quote {
+                    Some(q) => {
+                        if ch == q {
+                            quote = None;
+                        }
+                        laid.push(ch);
+                    }
+                    None => {
+                        if ch == '"' || ch == '\'' {
+                            quote = Some(ch);
+                            laid.push(ch);
+                        } else if ch == ' ' {
+                            laid.push_str(*rng.pick(&[" ", " ", "  ", "\n", " \n ", "   "]));
+                        } else {
+                            laid.push(ch);
+                        }
+                    }
+                }
+            }
+            out = laid;
+        }
+        if rng.chance(1, 4) {
+            out = format!("{}{}{}", rng.pick(&["", " ", "\n", "  "]), out, rng.pick(&["", " ", "\n"]));
+        }
+    }
     out
 }
 
 /// Texts whose parse or compile *fails* (never panics): their error must be deterministic too.
+/// Degenerate but valid inputs.
+pub const DEGENERATE_SUBJECTS: [&str; 8] = ["", "   ", "-depth", "-threads 3", "-depth -threads 0 -depth", "\n-true\n", "-true", "-print"];
+
 pub const ERROR_SUBJECTS: [&str; 34] = [
     // GNU find spellings and features the pinned parser rejects (a change that starts accepting
     // one of them must do so deterministically)
